@@ -292,6 +292,9 @@ def run(ctx):
         pool_t = d1 + nm + gen.rng(ctx.seed, PROP, logic + '2').sample(
             d2, min(k, len(d2)))
         pool_t += [gen.random_lang(r, logic, 4) for _ in range(60)]
+        pool_t += [gen.random_lang(r, logic, 5, atoms=at) for at in
+                   (('p1', 'p01', 'P1'), ('ab', 'a', 'abc'), ('x_', 'x__', 'x'))
+                   for _ in range(12)]
         LOG.sig['pair:near_miss'] += len(nm)
         objs = []
         for i, t in enumerate(pool_t):
